@@ -56,10 +56,11 @@ RULE = (
     "history) in a drawn layout, then 1-2 transfers (fetch/clone/push x {local, dulwich tcp, dulwich http, C git subprocess, C git "
     "daemon v0/v2, C git client over git:// and http against dulwich} x multi_ack none/plain/detailed, thin, ofs-delta, side-band, "
     "include-tag, duplicate wants, default-all wants x depth 1-3).  "
-    "Non-trivial = the receiver (real or virtual) is non-empty and lacks part of closure(wants), and at least one of: a "
-    "non-commit object shared between what it has and what it lacks' trees, a merge among the missing commits, a tag chain or "
-    "a tag whose target the receiver has among the wants, depth-limited, thin pack seen on the wire, a hostile want "
-    "(unadvertised id).  Distinct by (history, sender layout, receiver, step/conversation)."
+    "Non-trivial = the receiver (real or virtual) lacks part of closure(wants) and is non-empty (an empty receiver counts only "
+    "for depth-limited fetches), and at least one of: a non-commit object shared between what it has and the trees of the "
+    "commits it lacks, a merge among the missing commits, a tag chain or a tag whose target the receiver has among the wants, "
+    "depth-limited, thin pack seen on the wire; or the conversation names a hostile want (an existing but unadvertised id).  "
+    "Distinct by (history, sender layout, receiver, step/conversation)."
 )
 ASSUMPTIONS = [
     "git 2.39.5 is the reference peer and the reference reader of repositories (cat-file --batch-all-objects, fsck --connectivity-only)",
@@ -67,6 +68,10 @@ ASSUMPTIONS = [
     "SHA-1 repositories only; receivers are complete (closed under reachability) before the first transfer",
     "a transfer that raises / exits non-zero is not judged (counted under xfer-failed:*); hangs are cut by a 15 s watchdog and counted",
     "dulwich clients' capability sets are reduced through GitClient._fetch_capabilities (the only knob) to emulate older servers",
+    "oracle 2 judges dulwich as the sender only; packs sent by C git are parsed for thin-pack detection and any oddity is counted (cgit-sender:*)",
+    "depth-limited fetches over stateful transports run under a fixed schedule: the client's first can_read() poll waits for the server's "
+    "answer to 'deepen' (both orders are legal; the other order is a race the check does not sample)",
+    "tags C git decides to auto-follow (annotated or lightweight, target present or being fetched) count as wants of that fetch",
 ]
 
 _log = logging.getLogger("dulwich")
@@ -120,6 +125,13 @@ class _watchdog:
 # per-process servers
 
 
+def _die_with_parent():
+    """preexec_fn: the daemon must not outlive a worker that is killed (PR_SET_PDEATHSIG = 1)."""
+    import ctypes
+
+    ctypes.CDLL("libc.so.6", use_errno=True).prctl(1, signal.SIGKILL)
+
+
 class Env:
     def __init__(self, root):
         self.pid = os.getpid()
@@ -162,10 +174,14 @@ class Env:
                 s.bind(("127.0.0.1", 0))
                 port = s.getsockname()[1]
                 s.close()
+                # the daemon binary itself (not the `git` wrapper, which would fork it): one process that PDEATHSIG can reach;
+                # the -c options of cgit._COMMON travel in GIT_CONFIG_PARAMETERS instead
+                exe = os.path.join(cgit.out(["--exec-path"]).decode().strip(), "git-daemon")
+                params = " ".join("'%s'" % v for k, v in zip(cgit._COMMON[::2], cgit._COMMON[1::2]) if k == "-c")
                 p = subprocess.Popen(
-                    [cgit.GIT] + cgit._COMMON + ["daemon", "--reuseaddr", "--export-all", "--listen=127.0.0.1",
-                                                f"--port={port}", "--enable=receive-pack", self.root],
-                    env=cgit.env(), stdout=subprocess.DEVNULL, stderr=subprocess.DEVNULL, start_new_session=True)
+                    [exe, "--reuseaddr", "--export-all", "--listen=127.0.0.1", f"--port={port}", "--enable=receive-pack", self.root],
+                    env=cgit.env({"GIT_CONFIG_PARAMETERS": params}), stdout=subprocess.DEVNULL, stderr=subprocess.DEVNULL,
+                    start_new_session=True, preexec_fn=_die_with_parent)
                 t0 = time.time()
                 ok = False
                 while time.time() - t0 < 10 and p.poll() is None:
